@@ -47,6 +47,9 @@ ASSUMPTIONS = [
     "rejected element never releases the hold it imposed on itself (the object stays mute); the harness releases "
     "that hold after the failed call and does not judge the call",
     "python asserts enabled (no -O)",
+    "margin setters are judged from fresh component-bounds caches (the harness calls destroyAllRepresentations() on "
+    "the glyph's components first): stale caches after the base glyph was inserted / renamed / deleted are C03's "
+    "finding F11, not a payload defect",
     "notifications sent while objects are CREATED by the operation (lazy loading, instantiateAnchor(dict), "
     "copyDataFromGlyph's new objects) have no 'before': only their new value is judged",
 ]
@@ -855,6 +858,10 @@ def run_world(case, per_op=None):
                     list(g)
                     if op[0] == "set" and op[1][0] == "glyph" and op[2].endswith("Margin"):
                         margins_of = g
+                        # margins are computed from cached component bounds, which defcon does not evict when the
+                        # base glyph is added, renamed or deleted (C03's finding F11): start from fresh caches
+                        for c in g.components:
+                            c.destroyAllRepresentations()
                 if op[0] == "call" and op[2] in ("copyDataFromGlyph", "insertGlyph"):
                     list(w.glyph_at(op[3], op[4]))
             except Exception:
